@@ -81,6 +81,16 @@ pub fn fuzz_entry(id: &str) -> Option<fn(&[u8], &mut Acc) -> Vec<crate::engine::
         "C10" => c10::fuzz_case,
         "C11" => c11::fuzz_case,
         "C17" => c17::fuzz_case,
+        "C03" => c03::fuzz_case,
+        "C04" => c04::fuzz_case,
+        "C12" => c12::fuzz_case,
+        "C13" => c13::fuzz_case,
+        "C14" => c14::fuzz_case,
+        "C15" => c15::fuzz_case,
+        "C16" => c16::fuzz_case,
+        "C18" => c18::fuzz_case,
+        "C19" => c19::fuzz_case,
+        "C20" => c20::fuzz_case,
         _ => return None,
     })
 }
